@@ -112,6 +112,23 @@ class _Exprs(ast.NodeTransformer):
             node.args = new_args
         return node
 
+    def _flat(self, node):
+        # [*(a, b), c]  ->  [a, b, c]
+        self.generic_visit(node)
+        if any(isinstance(e, ast.Starred) and isinstance(e.value, (ast.Tuple, ast.List)) and not any(isinstance(x, ast.Starred) for x in e.value.elts) for e in node.elts) \
+                and isinstance(node.ctx, ast.Load):
+            new_elts: list[ast.expr] = []
+            for e in node.elts:
+                if isinstance(e, ast.Starred) and isinstance(e.value, (ast.Tuple, ast.List)) and not any(isinstance(x, ast.Starred) for x in e.value.elts):
+                    new_elts += list(e.value.elts)
+                else:
+                    new_elts.append(e)
+            node.elts = new_elts
+        return node
+
+    visit_List = _flat
+    visit_Tuple = _flat
+
     def visit_UnaryOp(self, node: ast.UnaryOp) -> ast.AST:
         self.generic_visit(node)
         # not (x % k)  ->  x % k == 0   (numbers)
